@@ -12,17 +12,25 @@ import (
 // Recorder writes events as ndjson, spread over shard files so that several
 // TLC judges can run in parallel. Events of one case stay in one shard.
 type Recorder struct {
-	dir    string
-	shards []*bufio.Writer
-	files  []*os.File
-	counts []int
-	n      int
-	next   int
+	dir      string
+	shards   []*bufio.Writer
+	files    []*os.File
+	counts   []int
+	written  []int64 // bytes in the current file of each lane
+	roll     []int   // file number of each lane
+	preamble map[string]any
+	closed   []string
+	n        int
+	next     int
 	// coverage bookkeeping reported in meta.json
 	keys    map[string]int // finding/case keys -> events
 	realise map[string]int // concretisation counters (abstract distinction -> realisations)
 	samples []any
+	bytes   int64
 }
+
+// a driver whose trace grows beyond this is a bug in the driver's bounds (exit 2), not something to write to disk
+const maxTraceBytes = 4 << 30
 
 func NewRecorder(dir string, shards int) (*Recorder, error) {
 	if err := os.MkdirAll(dir, 0o755); err != nil {
@@ -37,14 +45,46 @@ func NewRecorder(dir string, shards int) (*Recorder, error) {
 		r.files = append(r.files, f)
 		r.shards = append(r.shards, bufio.NewWriterSize(f, 1<<20))
 		r.counts = append(r.counts, 0)
+		r.written = append(r.written, 0)
+		r.roll = append(r.roll, 0)
 	}
 	return r, nil
+}
+
+// a judge holds one shard in memory: shards are rolled over at this size
+const maxShardBytes = 12 << 20
+
+// SetPreamble sets an event that is written again at the start of a new shard file when the current
+// case continues there (stateful trace specs need it to re-establish their state). Cleared by NewCase.
+func (r *Recorder) SetPreamble(ev map[string]any) { r.preamble = ev }
+
+func (r *Recorder) rollOver(lane int) {
+	r.shards[lane].Flush()
+	r.files[lane].Close()
+	r.roll[lane]++
+	f, err := os.Create(filepath.Join(r.dir, fmt.Sprintf("trace-%02d-%03d.ndjson", lane, r.roll[lane])))
+	if err != nil {
+		panic(err)
+	}
+	r.files[lane] = f
+	r.shards[lane] = bufio.NewWriterSize(f, 1<<20)
+	r.written[lane] = 0
+	if r.preamble != nil {
+		b, _ := json.Marshal(r.preamble)
+		r.shards[lane].Write(b)
+		r.shards[lane].WriteByte('\n')
+		r.written[lane] += int64(len(b))
+	}
 }
 
 // NewCase moves to the next shard (round robin); all events until the next
 // NewCase go to the same shard.
 func (r *Recorder) NewCase() {
 	r.next = (r.next + 1) % len(r.shards)
+	r.preamble = nil
+	if r.written[r.next] > maxShardBytes {
+		r.rollOver(r.next)
+	}
 }
 
 // Emit writes one event. key is the case/finding key of the event.
@@ -55,9 +95,17 @@ func (r *Recorder) Emit(key string, ev map[string]any) {
 	if err != nil {
 		panic(fmt.Sprintf("harness: cannot marshal event: %v", err))
 	}
+	r.bytes += int64(len(b))
+	if r.bytes > maxTraceBytes {
+		panic(fmt.Sprintf("harness: the trace exceeds %d bytes; refusing to fill the disk (bound the driver)", maxTraceBytes))
+	}
+	if r.written[r.next] > maxShardBytes && r.preamble != nil {
+		r.rollOver(r.next) // a long case continues in a new shard file, re-introduced by its preamble
+	}
 	w := r.shards[r.next]
 	w.Write(b)
 	w.WriteByte('\n')
+	r.written[r.next] += int64(len(b))
 	r.counts[r.next]++
 	r.n++
 	r.keys[key]++
